@@ -460,6 +460,7 @@ class FnTerms:
                         inl = self._inline_return(tgt, e, nid, env, depth)
                         if inl is not None:
                             return inl
+                    args, kwargs = _positional(tgt, args, kwargs)
                     return ("call", tgt.key, args, kwargs)
                 if isinstance(tgt, tuple) and tgt[0] == "external":
                     return ("call", tgt[1], args, kwargs)
@@ -883,6 +884,28 @@ def show(t, depth=0, maxdepth=7):
     if tag == "cont":
         return "cont:%s{%d muts; init=%s}" % (t[1], len(t[3]), S(t[2]))
     return "%s(%s)" % (tag, ", ".join(S(x) if isinstance(x, tuple) else repr(x) for x in t[1:]))
+
+
+def _positional(g, args, kwargs):
+    """Canonical argument form for calls to library functions (toolkit/, schemes/): keyword arguments that name the next
+    positional parameters are moved into the positional tuple, so that f(a, b) and f(x=a, y=b) give the same term."""
+    rel = g.module.rel
+    if not (rel.startswith("toolkit/") or rel.startswith("schemes/")) or not kwargs:
+        return args, kwargs
+    params = list(g.params)
+    if g.cls is not None and params and params[0] in ("self", "cls") and not any("staticmethod" in d for d in g.decorators):
+        params = params[1:]
+    a = g.node.args
+    if a.vararg is not None:
+        return args, kwargs
+    kw = dict(kwargs)
+    out = list(args)
+    for p in params[len(out):]:
+        if p in kw and p not in [x.arg for x in a.kwonlyargs]:
+            out.append(kw.pop(p))
+        else:
+            break
+    return tuple(out), tuple(sorted(kw.items()))
 
 
 _ft_cache = {}
